@@ -763,8 +763,11 @@ def oracle_scipy(inp):
                   float(res.function_values[i]), smooth_af(coef, e))
   if inp["slsqp"] and cons:
     # clause (h): a single constrained SLSQP run started inside the domain ends inside it.  The library's part is the tightened
-    # inequality (Props/C07_scipy.v); SLSQP's part is a feasibility error far below the margin.  Tolerance: 1e-11 of the magnitudes
-    # involved (the margin is 1e-8 |rhs|; at rhs = 0 there is no margin and SLSQP ends ~1e-15 outside on the unchanged tree).
+    # inequality (Props/C07_scipy.v, tied to the code by the correspondence on the constraint functions).  SLSQP's part is its documented
+    # accuracy: it stops when the summed constraint violation is below acc = ftol (1e-4 here, absolute), so a "successful" end point may
+    # sit up to that far outside - observed on the unchanged tree: 3.3e-9 outside with a margin of 6e-10 (rhs -0.0625), 1e-15 at rhs = 0.
+    # The run-based clause is therefore stated with SciPy's accuracy and only catches gross errors (a constraint of the wrong sign,
+    # a missing constraint); a loosened margin is caught by the correspondence and by oracle_scipycons.
     for s in res.starting_points:
       if not in_domain(list(s), lb, ub, [], cons, 0.0):
         continue
@@ -778,10 +781,10 @@ def oracle_scipy(inp):
       for c in cons:
         mag = sum(abs(w * x) for w, x in zip(c[:-1], e)) + abs(c[-1]) + 1e-300
         slack = sum(w * x for w, x in zip(c[:-1], e)) - c[-1]
-        if slack < -1e-11 * mag:
+        if slack < -(1e-4 + 1e-9 * mag):
           return fail("slsqp-run-from-inside-ends-outside", "a successful single SLSQP run started inside the domain ended outside a linear constraint",
-                      dict(start=[float(x) for x in s], end=[float(x) for x in e], constraint=c, slack=slack), "w . x >= rhs (to 1e-11 of the magnitudes)")
-      if any(x < l - 1e-11 * (abs(l) + 1) or x > u + 1e-11 * (abs(u) + 1) for x, l, u in zip(e, lb, ub)):
+                      dict(start=[float(x) for x in s], end=[float(x) for x in e], constraint=c, slack=slack), "w . x >= rhs (to SLSQP's accuracy acc = ftol = 1e-4)")
+      if any(x < l - 1e-9 * (abs(l) + 1) or x > u + 1e-9 * (abs(u) + 1) for x, l, u in zip(e, lb, ub)):
         return fail("slsqp-run-from-inside-ends-outside-box", "a successful single SLSQP run started inside the domain ended outside the box",
                     dict(start=[float(x) for x in s], end=[float(x) for x in e]), "lb <= x <= ub")
   # successes are exactly the acceptable end points whose run reported success; the result is the best of them
